@@ -846,7 +846,7 @@ func c06Front(c *Ctx, n int) error {
 		var out string
 		select {
 		case out = <-done:
-		case <-time.After(20 * time.Second):
+		case <-time.After(120 * time.Second):
 			out = "HANG"
 		}
 		res.Count("front", string(src), kind != "bytes")
